@@ -28,3 +28,18 @@ Fixpoint failures_from {C} (check : C -> bool * bool) (i : nat) (cs : list C) : 
 
 (** Stub entries carrying only a hash (for cases where nothing else matters). *)
 Definition stub (h : N) : entry := mkEntry h 0 0 0 [] [] 0 0 0 OOther.
+
+(** is [a] a subsequence of [b] *)
+Fixpoint subseq (a b : list N) : bool :=
+  match a, b with
+  | [], _ => true
+  | _, [] => false
+  | x :: a', y :: b' => if (x =? y)%N then subseq a' b' else subseq a b'
+  end.
+
+Fixpoint sorted_asc (l : list entry) : bool :=
+  match l with
+  | a :: ((b :: _) as t) => key_ltb a b && sorted_asc t
+  | _ => true
+  end.
+
